@@ -3,9 +3,10 @@
 # Runs every engine that has a C20 surface under BOTH build profiles with the same seeds,
 # then diffs the per-run observation logs between the profiles.
 set -u
-VERIF_DIR="${VERIF_DIR:-$(cd "$(dirname "${BASH_SOURCE[0]}")" && pwd)}"
+HOME_DIR="${HOME_DIR:-$(cd "$(dirname "${BASH_SOURCE[0]}")" && pwd)}"
+VERIF_DIR="${VERIF_DIR:-$HOME_DIR}"
 export VERIF_DIR
-SIM="$VERIF_DIR/sim"
+SIM="$HOME_DIR/sim"
 export CARGO_NET_OFFLINE=true
 tier="${1:-quick}"; shift || true
 seed="${VERIF_SEED:-20231009}"
@@ -65,6 +66,6 @@ for e in "${ENGINES[@]}"; do
 done
 
 end=$(date +%s.%N)
-python3 "$VERIF_DIR/merge_evidence.py" C20 "$tier" "$seed" "$rc" "$(echo "$end - $start" | bc)" "$work/crossprofile.txt" || exit 2
+python3 "$HOME_DIR/merge_evidence.py" C20 "$tier" "$seed" "$rc" "$(echo "$end - $start" | bc)" "$work/crossprofile.txt" || exit 2
 rm -f "$VERIF_DIR"/evidence/C20.part.*.json
 exit $rc
